@@ -18,10 +18,15 @@ ShE(a) == R(<<"e">>, <<"w">>, a)
 ShEk(a) == R(<<"e", K>>, <<"w", K>>, a)
 ShF(a) == R(<<"f">>, <<"n">>, a)                                       \* second request name for storage n
 ShH(a) == R(<<"h">>, <<"o", "p">>, a)                                  \* top-level request, nested storage
+\* rules SHARING the placeholder name {k} at different depths: {k}.z binds k from the FIRST request part (and is
+\* then skipped when "z" does not match or the access is wrong), e.x.{k} has {k} beyond a request "e" / "e.x"
+ShKz(a) == R(<<K, "z">>, <<"v", K, "z">>, a)
+ShExk(a) == R(<<"e", "x", K>>, <<"w", "x", K>>, a)
 
 Shapes1 == {ShA(a) : a \in Acc} \cup {ShB(a) : a \in Acc} \cup {ShCk(a) : a \in Acc} \cup {ShC(a) : a \in Acc}
            \cup {ShD(a, b) : a \in Acc, b \in Acc} \cup {ShDq(a) : a \in Acc} \cup {ShE(a) : a \in Acc}
            \cup {ShEk(a) : a \in Acc} \cup {ShF(a) : a \in Acc} \cup {ShH(a) : a \in Acc}
+           \cup {ShKz(a) : a \in Acc} \cup {ShExk(a) : a \in Acc}
 
 \* registry.New rejects a view with two readable rules for the same request
 ReadReqs(v) == LET f == Flatten(v) IN {f[i].req : i \in {j \in 1..Len(f) : Readable(f[j])}}
@@ -39,7 +44,14 @@ ViewsQuick == {
     <<ShD("write", "read"), ShH("read-write")>>,
     <<ShE("read-write"), ShEk("read-write")>>,
     <<ShEk("read-write"), ShE("write"), ShA("read-write")>>,
-    <<ShE("read"), ShEk("write"), ShB("read-write")>> }
+    <<ShE("read"), ShEk("write"), ShB("read-write")>>,
+    \* an earlier rule binds {k} and is skipped (wrong access / later literal differs); a later rule has {k}
+    \* beyond the end of the request: its storage path must keep {k} unbound
+    <<ShKz("read"), ShEk("read-write")>>,
+    <<ShKz("read-write"), ShExk("read-write"), ShE("read-write")>> }
+\* the directed view x request table (RegistryViewTable) additionally uses
+ViewsTable == ViewsQuick \cup { <<ShKz("write"), ShEk("read-write"), ShExk("read")>>,
+                                <<ShCk("read"), ShKz("read-write"), ShEk("write")>> }
 
 V1 == Lf("1")
 V2 == Lf("2")
@@ -58,21 +70,22 @@ SetAll == { <<<<"a">>, V1>>, <<<<"a">>, VS>>, <<<<"a">>, M("x", V1)>>,
             <<<<"d", "p">>, V2>>, <<<<"d", "q">>, VT>>, <<<<"d", "q">>, V1>>,
             <<<<"e">>, V1>>, <<<<"e">>, M("x", V1)>>, <<<<"e">>, M2("x", VS, "y", M("z", V1))>>,
             <<<<"e", "x">>, VS>>, <<<<"e", "y">>, M("z", V2)>>,
-            <<<<"f">>, V2>>, <<<<"h">>, V1>>, <<<<"h">>, VS>>, <<<<"z">>, V1>> }
+            <<<<"f">>, V2>>, <<<<"h">>, V1>>, <<<<"h">>, VS>>, <<<<"z">>, V1>>,
+            <<<<"e", "x">>, M("y", V1)>>, <<<<"e", "x", "y">>, V2>>, <<<<"e">>, M("z", V2)>>, <<<<"e", "z">>, V1>> }
 SetQuick == { <<<<"a">>, V1>>, <<<<"a">>, VS>>, <<<<"b">>, VS>>,
               <<<<"c">>, M2("x", V1, "y", V2)>>, <<<<"c">>, M("x", VS)>>, <<<<"c", "x">>, V2>>,
               <<<<"d">>, M2("p", V1, "q", VS)>>, <<<<"d">>, M("q", VS)>>, <<<<"d", "p">>, V2>>, <<<<"d", "q">>, VT>>,
               <<<<"e">>, V1>>, <<<<"e">>, M("x", V1)>>, <<<<"e", "y">>, VS>>,
-              <<<<"f">>, V2>>, <<<<"h">>, V1>> }
-UnsetAll == { <<"a">>, <<"b">>, <<"c">>, <<"c", "x">>, <<"d">>, <<"d", "p">>, <<"d", "q">>, <<"e">>, <<"e", "x">>,
+              <<<<"f">>, V2>>, <<<<"h">>, V1>>, <<<<"e", "x">>, M("y", V1)>> }
+UnsetAll == { <<"e", "x", "y">>, <<"e", "z">>, <<"a">>, <<"b">>, <<"c">>, <<"c", "x">>, <<"d">>, <<"d", "p">>, <<"d", "q">>, <<"e">>, <<"e", "x">>,
               <<"f">>, <<"h">>, <<"z">> }
 UnsetQuick == { <<"a">>, <<"c">>, <<"c", "x">>, <<"d">>, <<"d", "p">>, <<"e">>, <<"e", "x">> }
-GetAll == { <<>>, <<"a">>, <<"b">>, <<"c">>, <<"c", "x">>, <<"c", "y">>, <<"d">>, <<"d", "p">>, <<"d", "q">>,
+GetAll == { <<"e", "x", "y">>, <<"e", "z">>, <<>>, <<"a">>, <<"b">>, <<"c">>, <<"c", "x">>, <<"c", "y">>, <<"d">>, <<"d", "p">>, <<"d", "q">>,
             <<"e">>, <<"e", "x">>, <<"e", "y">>, <<"f">>, <<"h">>, <<"z">> }
-GetQuick == { <<>>, <<"c">>, <<"d">> }
+GetQuick == { <<>>, <<"d">>, <<"e">> }
 
-SKeys == {"n", "s", "m", "o", "w"}
-SSub == {"x", "y", "p", "q"}
+SKeys == {"n", "s", "m", "o", "w", "v"}
+SSub == {"x", "y", "p", "q", "e"}
 StorPaths == {<<a>> : a \in SKeys} \cup {<<a, b>> : a \in SKeys, b \in SSub}
 
 \* simulation only: same actions, each step drawing a few random menu entries
